@@ -18,333 +18,10 @@ Require Import ZifyBool ZifyN ZifyNat.
 Local Open Scope N_scope.
 
 (* ---------- projections of field updates (generated) ---------- *)
-Lemma asyncCaller_set_asyncCaller v c : asyncCaller (set_asyncCaller v c) = v. Proof. reflexivity. Qed.
-Lemma finished_set_asyncCaller v c : finished (set_asyncCaller v c) = finished c. Proof. reflexivity. Qed.
-Lemma ans_set_asyncCaller v c : ans (set_asyncCaller v c) = ans c. Proof. reflexivity. Qed.
-Lemma stg_set_asyncCaller v c : stg (set_asyncCaller v c) = stg c. Proof. reflexivity. Qed.
-Lemma matchLoc_set_asyncCaller v c : matchLoc (set_asyncCaller v c) = matchLoc c. Proof. reflexivity. Qed.
-Lemma asyncLoc_set_asyncCaller v c : asyncLoc (set_asyncCaller v c) = asyncLoc c. Proof. reflexivity. Qed.
-Lemma depth_set_asyncCaller v c : depth (set_asyncCaller v c) = depth c. Proof. reflexivity. Qed.
-Lemma path_set_asyncCaller v c : path (set_asyncCaller v c) = path c. Proof. reflexivity. Qed.
-Lemma banned_set_asyncCaller v c : banned (set_asyncCaller v c) = banned c. Proof. reflexivity. Qed.
-Lemma lastName_set_asyncCaller v c : lastName (set_asyncCaller v c) = lastName c. Proof. reflexivity. Qed.
-Lemma lastMatch_set_asyncCaller v c : lastMatch (set_asyncCaller v c) = lastMatch c. Proof. reflexivity. Qed.
-Lemma cbk_set_asyncCaller v c : cbk (set_asyncCaller v c) = cbk c. Proof. reflexivity. Qed.
-Lemma err_set_asyncCaller v c : err (set_asyncCaller v c) = err c. Proof. reflexivity. Qed.
-Lemma lrem_set_asyncCaller v c : lrem (set_asyncCaller v c) = lrem c. Proof. reflexivity. Qed.
-Lemma pending_set_asyncCaller v c : pending (set_asyncCaller v c) = pending c. Proof. reflexivity. Qed.
-Lemma trace_set_asyncCaller v c : trace (set_asyncCaller v c) = trace c. Proof. reflexivity. Qed.
-Lemma starts_set_asyncCaller v c : starts (set_asyncCaller v c) = starts c. Proof. reflexivity. Qed.
-Lemma susp_set_asyncCaller v c : susp (set_asyncCaller v c) = susp c. Proof. reflexivity. Qed.
-Lemma asyncCaller_set_finished v c : asyncCaller (set_finished v c) = asyncCaller c. Proof. reflexivity. Qed.
-Lemma finished_set_finished v c : finished (set_finished v c) = v. Proof. reflexivity. Qed.
-Lemma ans_set_finished v c : ans (set_finished v c) = ans c. Proof. reflexivity. Qed.
-Lemma stg_set_finished v c : stg (set_finished v c) = stg c. Proof. reflexivity. Qed.
-Lemma matchLoc_set_finished v c : matchLoc (set_finished v c) = matchLoc c. Proof. reflexivity. Qed.
-Lemma asyncLoc_set_finished v c : asyncLoc (set_finished v c) = asyncLoc c. Proof. reflexivity. Qed.
-Lemma depth_set_finished v c : depth (set_finished v c) = depth c. Proof. reflexivity. Qed.
-Lemma path_set_finished v c : path (set_finished v c) = path c. Proof. reflexivity. Qed.
-Lemma banned_set_finished v c : banned (set_finished v c) = banned c. Proof. reflexivity. Qed.
-Lemma lastName_set_finished v c : lastName (set_finished v c) = lastName c. Proof. reflexivity. Qed.
-Lemma lastMatch_set_finished v c : lastMatch (set_finished v c) = lastMatch c. Proof. reflexivity. Qed.
-Lemma cbk_set_finished v c : cbk (set_finished v c) = cbk c. Proof. reflexivity. Qed.
-Lemma err_set_finished v c : err (set_finished v c) = err c. Proof. reflexivity. Qed.
-Lemma lrem_set_finished v c : lrem (set_finished v c) = lrem c. Proof. reflexivity. Qed.
-Lemma pending_set_finished v c : pending (set_finished v c) = pending c. Proof. reflexivity. Qed.
-Lemma trace_set_finished v c : trace (set_finished v c) = trace c. Proof. reflexivity. Qed.
-Lemma starts_set_finished v c : starts (set_finished v c) = starts c. Proof. reflexivity. Qed.
-Lemma susp_set_finished v c : susp (set_finished v c) = susp c. Proof. reflexivity. Qed.
-Lemma asyncCaller_set_ans v c : asyncCaller (set_ans v c) = asyncCaller c. Proof. reflexivity. Qed.
-Lemma finished_set_ans v c : finished (set_ans v c) = finished c. Proof. reflexivity. Qed.
-Lemma ans_set_ans v c : ans (set_ans v c) = v. Proof. reflexivity. Qed.
-Lemma stg_set_ans v c : stg (set_ans v c) = stg c. Proof. reflexivity. Qed.
-Lemma matchLoc_set_ans v c : matchLoc (set_ans v c) = matchLoc c. Proof. reflexivity. Qed.
-Lemma asyncLoc_set_ans v c : asyncLoc (set_ans v c) = asyncLoc c. Proof. reflexivity. Qed.
-Lemma depth_set_ans v c : depth (set_ans v c) = depth c. Proof. reflexivity. Qed.
-Lemma path_set_ans v c : path (set_ans v c) = path c. Proof. reflexivity. Qed.
-Lemma banned_set_ans v c : banned (set_ans v c) = banned c. Proof. reflexivity. Qed.
-Lemma lastName_set_ans v c : lastName (set_ans v c) = lastName c. Proof. reflexivity. Qed.
-Lemma lastMatch_set_ans v c : lastMatch (set_ans v c) = lastMatch c. Proof. reflexivity. Qed.
-Lemma cbk_set_ans v c : cbk (set_ans v c) = cbk c. Proof. reflexivity. Qed.
-Lemma err_set_ans v c : err (set_ans v c) = err c. Proof. reflexivity. Qed.
-Lemma lrem_set_ans v c : lrem (set_ans v c) = lrem c. Proof. reflexivity. Qed.
-Lemma pending_set_ans v c : pending (set_ans v c) = pending c. Proof. reflexivity. Qed.
-Lemma trace_set_ans v c : trace (set_ans v c) = trace c. Proof. reflexivity. Qed.
-Lemma starts_set_ans v c : starts (set_ans v c) = starts c. Proof. reflexivity. Qed.
-Lemma susp_set_ans v c : susp (set_ans v c) = susp c. Proof. reflexivity. Qed.
-Lemma asyncCaller_set_stg v c : asyncCaller (set_stg v c) = asyncCaller c. Proof. reflexivity. Qed.
-Lemma finished_set_stg v c : finished (set_stg v c) = finished c. Proof. reflexivity. Qed.
-Lemma ans_set_stg v c : ans (set_stg v c) = ans c. Proof. reflexivity. Qed.
-Lemma stg_set_stg v c : stg (set_stg v c) = v. Proof. reflexivity. Qed.
-Lemma matchLoc_set_stg v c : matchLoc (set_stg v c) = matchLoc c. Proof. reflexivity. Qed.
-Lemma asyncLoc_set_stg v c : asyncLoc (set_stg v c) = asyncLoc c. Proof. reflexivity. Qed.
-Lemma depth_set_stg v c : depth (set_stg v c) = depth c. Proof. reflexivity. Qed.
-Lemma path_set_stg v c : path (set_stg v c) = path c. Proof. reflexivity. Qed.
-Lemma banned_set_stg v c : banned (set_stg v c) = banned c. Proof. reflexivity. Qed.
-Lemma lastName_set_stg v c : lastName (set_stg v c) = lastName c. Proof. reflexivity. Qed.
-Lemma lastMatch_set_stg v c : lastMatch (set_stg v c) = lastMatch c. Proof. reflexivity. Qed.
-Lemma cbk_set_stg v c : cbk (set_stg v c) = cbk c. Proof. reflexivity. Qed.
-Lemma err_set_stg v c : err (set_stg v c) = err c. Proof. reflexivity. Qed.
-Lemma lrem_set_stg v c : lrem (set_stg v c) = lrem c. Proof. reflexivity. Qed.
-Lemma pending_set_stg v c : pending (set_stg v c) = pending c. Proof. reflexivity. Qed.
-Lemma trace_set_stg v c : trace (set_stg v c) = trace c. Proof. reflexivity. Qed.
-Lemma starts_set_stg v c : starts (set_stg v c) = starts c. Proof. reflexivity. Qed.
-Lemma susp_set_stg v c : susp (set_stg v c) = susp c. Proof. reflexivity. Qed.
-Lemma asyncCaller_set_matchLoc v c : asyncCaller (set_matchLoc v c) = asyncCaller c. Proof. reflexivity. Qed.
-Lemma finished_set_matchLoc v c : finished (set_matchLoc v c) = finished c. Proof. reflexivity. Qed.
-Lemma ans_set_matchLoc v c : ans (set_matchLoc v c) = ans c. Proof. reflexivity. Qed.
-Lemma stg_set_matchLoc v c : stg (set_matchLoc v c) = stg c. Proof. reflexivity. Qed.
-Lemma matchLoc_set_matchLoc v c : matchLoc (set_matchLoc v c) = v. Proof. reflexivity. Qed.
-Lemma asyncLoc_set_matchLoc v c : asyncLoc (set_matchLoc v c) = asyncLoc c. Proof. reflexivity. Qed.
-Lemma depth_set_matchLoc v c : depth (set_matchLoc v c) = depth c. Proof. reflexivity. Qed.
-Lemma path_set_matchLoc v c : path (set_matchLoc v c) = path c. Proof. reflexivity. Qed.
-Lemma banned_set_matchLoc v c : banned (set_matchLoc v c) = banned c. Proof. reflexivity. Qed.
-Lemma lastName_set_matchLoc v c : lastName (set_matchLoc v c) = lastName c. Proof. reflexivity. Qed.
-Lemma lastMatch_set_matchLoc v c : lastMatch (set_matchLoc v c) = lastMatch c. Proof. reflexivity. Qed.
-Lemma cbk_set_matchLoc v c : cbk (set_matchLoc v c) = cbk c. Proof. reflexivity. Qed.
-Lemma err_set_matchLoc v c : err (set_matchLoc v c) = err c. Proof. reflexivity. Qed.
-Lemma lrem_set_matchLoc v c : lrem (set_matchLoc v c) = lrem c. Proof. reflexivity. Qed.
-Lemma pending_set_matchLoc v c : pending (set_matchLoc v c) = pending c. Proof. reflexivity. Qed.
-Lemma trace_set_matchLoc v c : trace (set_matchLoc v c) = trace c. Proof. reflexivity. Qed.
-Lemma starts_set_matchLoc v c : starts (set_matchLoc v c) = starts c. Proof. reflexivity. Qed.
-Lemma susp_set_matchLoc v c : susp (set_matchLoc v c) = susp c. Proof. reflexivity. Qed.
-Lemma asyncCaller_set_asyncLoc v c : asyncCaller (set_asyncLoc v c) = asyncCaller c. Proof. reflexivity. Qed.
-Lemma finished_set_asyncLoc v c : finished (set_asyncLoc v c) = finished c. Proof. reflexivity. Qed.
-Lemma ans_set_asyncLoc v c : ans (set_asyncLoc v c) = ans c. Proof. reflexivity. Qed.
-Lemma stg_set_asyncLoc v c : stg (set_asyncLoc v c) = stg c. Proof. reflexivity. Qed.
-Lemma matchLoc_set_asyncLoc v c : matchLoc (set_asyncLoc v c) = matchLoc c. Proof. reflexivity. Qed.
-Lemma asyncLoc_set_asyncLoc v c : asyncLoc (set_asyncLoc v c) = v. Proof. reflexivity. Qed.
-Lemma depth_set_asyncLoc v c : depth (set_asyncLoc v c) = depth c. Proof. reflexivity. Qed.
-Lemma path_set_asyncLoc v c : path (set_asyncLoc v c) = path c. Proof. reflexivity. Qed.
-Lemma banned_set_asyncLoc v c : banned (set_asyncLoc v c) = banned c. Proof. reflexivity. Qed.
-Lemma lastName_set_asyncLoc v c : lastName (set_asyncLoc v c) = lastName c. Proof. reflexivity. Qed.
-Lemma lastMatch_set_asyncLoc v c : lastMatch (set_asyncLoc v c) = lastMatch c. Proof. reflexivity. Qed.
-Lemma cbk_set_asyncLoc v c : cbk (set_asyncLoc v c) = cbk c. Proof. reflexivity. Qed.
-Lemma err_set_asyncLoc v c : err (set_asyncLoc v c) = err c. Proof. reflexivity. Qed.
-Lemma lrem_set_asyncLoc v c : lrem (set_asyncLoc v c) = lrem c. Proof. reflexivity. Qed.
-Lemma pending_set_asyncLoc v c : pending (set_asyncLoc v c) = pending c. Proof. reflexivity. Qed.
-Lemma trace_set_asyncLoc v c : trace (set_asyncLoc v c) = trace c. Proof. reflexivity. Qed.
-Lemma starts_set_asyncLoc v c : starts (set_asyncLoc v c) = starts c. Proof. reflexivity. Qed.
-Lemma susp_set_asyncLoc v c : susp (set_asyncLoc v c) = susp c. Proof. reflexivity. Qed.
-Lemma asyncCaller_set_depth v c : asyncCaller (set_depth v c) = asyncCaller c. Proof. reflexivity. Qed.
-Lemma finished_set_depth v c : finished (set_depth v c) = finished c. Proof. reflexivity. Qed.
-Lemma ans_set_depth v c : ans (set_depth v c) = ans c. Proof. reflexivity. Qed.
-Lemma stg_set_depth v c : stg (set_depth v c) = stg c. Proof. reflexivity. Qed.
-Lemma matchLoc_set_depth v c : matchLoc (set_depth v c) = matchLoc c. Proof. reflexivity. Qed.
-Lemma asyncLoc_set_depth v c : asyncLoc (set_depth v c) = asyncLoc c. Proof. reflexivity. Qed.
-Lemma depth_set_depth v c : depth (set_depth v c) = v. Proof. reflexivity. Qed.
-Lemma path_set_depth v c : path (set_depth v c) = path c. Proof. reflexivity. Qed.
-Lemma banned_set_depth v c : banned (set_depth v c) = banned c. Proof. reflexivity. Qed.
-Lemma lastName_set_depth v c : lastName (set_depth v c) = lastName c. Proof. reflexivity. Qed.
-Lemma lastMatch_set_depth v c : lastMatch (set_depth v c) = lastMatch c. Proof. reflexivity. Qed.
-Lemma cbk_set_depth v c : cbk (set_depth v c) = cbk c. Proof. reflexivity. Qed.
-Lemma err_set_depth v c : err (set_depth v c) = err c. Proof. reflexivity. Qed.
-Lemma lrem_set_depth v c : lrem (set_depth v c) = lrem c. Proof. reflexivity. Qed.
-Lemma pending_set_depth v c : pending (set_depth v c) = pending c. Proof. reflexivity. Qed.
-Lemma trace_set_depth v c : trace (set_depth v c) = trace c. Proof. reflexivity. Qed.
-Lemma starts_set_depth v c : starts (set_depth v c) = starts c. Proof. reflexivity. Qed.
-Lemma susp_set_depth v c : susp (set_depth v c) = susp c. Proof. reflexivity. Qed.
-Lemma asyncCaller_set_path v c : asyncCaller (set_path v c) = asyncCaller c. Proof. reflexivity. Qed.
-Lemma finished_set_path v c : finished (set_path v c) = finished c. Proof. reflexivity. Qed.
-Lemma ans_set_path v c : ans (set_path v c) = ans c. Proof. reflexivity. Qed.
-Lemma stg_set_path v c : stg (set_path v c) = stg c. Proof. reflexivity. Qed.
-Lemma matchLoc_set_path v c : matchLoc (set_path v c) = matchLoc c. Proof. reflexivity. Qed.
-Lemma asyncLoc_set_path v c : asyncLoc (set_path v c) = asyncLoc c. Proof. reflexivity. Qed.
-Lemma depth_set_path v c : depth (set_path v c) = depth c. Proof. reflexivity. Qed.
-Lemma path_set_path v c : path (set_path v c) = v. Proof. reflexivity. Qed.
-Lemma banned_set_path v c : banned (set_path v c) = banned c. Proof. reflexivity. Qed.
-Lemma lastName_set_path v c : lastName (set_path v c) = lastName c. Proof. reflexivity. Qed.
-Lemma lastMatch_set_path v c : lastMatch (set_path v c) = lastMatch c. Proof. reflexivity. Qed.
-Lemma cbk_set_path v c : cbk (set_path v c) = cbk c. Proof. reflexivity. Qed.
-Lemma err_set_path v c : err (set_path v c) = err c. Proof. reflexivity. Qed.
-Lemma lrem_set_path v c : lrem (set_path v c) = lrem c. Proof. reflexivity. Qed.
-Lemma pending_set_path v c : pending (set_path v c) = pending c. Proof. reflexivity. Qed.
-Lemma trace_set_path v c : trace (set_path v c) = trace c. Proof. reflexivity. Qed.
-Lemma starts_set_path v c : starts (set_path v c) = starts c. Proof. reflexivity. Qed.
-Lemma susp_set_path v c : susp (set_path v c) = susp c. Proof. reflexivity. Qed.
-Lemma asyncCaller_set_banned v c : asyncCaller (set_banned v c) = asyncCaller c. Proof. reflexivity. Qed.
-Lemma finished_set_banned v c : finished (set_banned v c) = finished c. Proof. reflexivity. Qed.
-Lemma ans_set_banned v c : ans (set_banned v c) = ans c. Proof. reflexivity. Qed.
-Lemma stg_set_banned v c : stg (set_banned v c) = stg c. Proof. reflexivity. Qed.
-Lemma matchLoc_set_banned v c : matchLoc (set_banned v c) = matchLoc c. Proof. reflexivity. Qed.
-Lemma asyncLoc_set_banned v c : asyncLoc (set_banned v c) = asyncLoc c. Proof. reflexivity. Qed.
-Lemma depth_set_banned v c : depth (set_banned v c) = depth c. Proof. reflexivity. Qed.
-Lemma path_set_banned v c : path (set_banned v c) = path c. Proof. reflexivity. Qed.
-Lemma banned_set_banned v c : banned (set_banned v c) = v. Proof. reflexivity. Qed.
-Lemma lastName_set_banned v c : lastName (set_banned v c) = lastName c. Proof. reflexivity. Qed.
-Lemma lastMatch_set_banned v c : lastMatch (set_banned v c) = lastMatch c. Proof. reflexivity. Qed.
-Lemma cbk_set_banned v c : cbk (set_banned v c) = cbk c. Proof. reflexivity. Qed.
-Lemma err_set_banned v c : err (set_banned v c) = err c. Proof. reflexivity. Qed.
-Lemma lrem_set_banned v c : lrem (set_banned v c) = lrem c. Proof. reflexivity. Qed.
-Lemma pending_set_banned v c : pending (set_banned v c) = pending c. Proof. reflexivity. Qed.
-Lemma trace_set_banned v c : trace (set_banned v c) = trace c. Proof. reflexivity. Qed.
-Lemma starts_set_banned v c : starts (set_banned v c) = starts c. Proof. reflexivity. Qed.
-Lemma susp_set_banned v c : susp (set_banned v c) = susp c. Proof. reflexivity. Qed.
-Lemma asyncCaller_set_lastName v c : asyncCaller (set_lastName v c) = asyncCaller c. Proof. reflexivity. Qed.
-Lemma finished_set_lastName v c : finished (set_lastName v c) = finished c. Proof. reflexivity. Qed.
-Lemma ans_set_lastName v c : ans (set_lastName v c) = ans c. Proof. reflexivity. Qed.
-Lemma stg_set_lastName v c : stg (set_lastName v c) = stg c. Proof. reflexivity. Qed.
-Lemma matchLoc_set_lastName v c : matchLoc (set_lastName v c) = matchLoc c. Proof. reflexivity. Qed.
-Lemma asyncLoc_set_lastName v c : asyncLoc (set_lastName v c) = asyncLoc c. Proof. reflexivity. Qed.
-Lemma depth_set_lastName v c : depth (set_lastName v c) = depth c. Proof. reflexivity. Qed.
-Lemma path_set_lastName v c : path (set_lastName v c) = path c. Proof. reflexivity. Qed.
-Lemma banned_set_lastName v c : banned (set_lastName v c) = banned c. Proof. reflexivity. Qed.
-Lemma lastName_set_lastName v c : lastName (set_lastName v c) = v. Proof. reflexivity. Qed.
-Lemma lastMatch_set_lastName v c : lastMatch (set_lastName v c) = lastMatch c. Proof. reflexivity. Qed.
-Lemma cbk_set_lastName v c : cbk (set_lastName v c) = cbk c. Proof. reflexivity. Qed.
-Lemma err_set_lastName v c : err (set_lastName v c) = err c. Proof. reflexivity. Qed.
-Lemma lrem_set_lastName v c : lrem (set_lastName v c) = lrem c. Proof. reflexivity. Qed.
-Lemma pending_set_lastName v c : pending (set_lastName v c) = pending c. Proof. reflexivity. Qed.
-Lemma trace_set_lastName v c : trace (set_lastName v c) = trace c. Proof. reflexivity. Qed.
-Lemma starts_set_lastName v c : starts (set_lastName v c) = starts c. Proof. reflexivity. Qed.
-Lemma susp_set_lastName v c : susp (set_lastName v c) = susp c. Proof. reflexivity. Qed.
-Lemma asyncCaller_set_lastMatch v c : asyncCaller (set_lastMatch v c) = asyncCaller c. Proof. reflexivity. Qed.
-Lemma finished_set_lastMatch v c : finished (set_lastMatch v c) = finished c. Proof. reflexivity. Qed.
-Lemma ans_set_lastMatch v c : ans (set_lastMatch v c) = ans c. Proof. reflexivity. Qed.
-Lemma stg_set_lastMatch v c : stg (set_lastMatch v c) = stg c. Proof. reflexivity. Qed.
-Lemma matchLoc_set_lastMatch v c : matchLoc (set_lastMatch v c) = matchLoc c. Proof. reflexivity. Qed.
-Lemma asyncLoc_set_lastMatch v c : asyncLoc (set_lastMatch v c) = asyncLoc c. Proof. reflexivity. Qed.
-Lemma depth_set_lastMatch v c : depth (set_lastMatch v c) = depth c. Proof. reflexivity. Qed.
-Lemma path_set_lastMatch v c : path (set_lastMatch v c) = path c. Proof. reflexivity. Qed.
-Lemma banned_set_lastMatch v c : banned (set_lastMatch v c) = banned c. Proof. reflexivity. Qed.
-Lemma lastName_set_lastMatch v c : lastName (set_lastMatch v c) = lastName c. Proof. reflexivity. Qed.
-Lemma lastMatch_set_lastMatch v c : lastMatch (set_lastMatch v c) = v. Proof. reflexivity. Qed.
-Lemma cbk_set_lastMatch v c : cbk (set_lastMatch v c) = cbk c. Proof. reflexivity. Qed.
-Lemma err_set_lastMatch v c : err (set_lastMatch v c) = err c. Proof. reflexivity. Qed.
-Lemma lrem_set_lastMatch v c : lrem (set_lastMatch v c) = lrem c. Proof. reflexivity. Qed.
-Lemma pending_set_lastMatch v c : pending (set_lastMatch v c) = pending c. Proof. reflexivity. Qed.
-Lemma trace_set_lastMatch v c : trace (set_lastMatch v c) = trace c. Proof. reflexivity. Qed.
-Lemma starts_set_lastMatch v c : starts (set_lastMatch v c) = starts c. Proof. reflexivity. Qed.
-Lemma susp_set_lastMatch v c : susp (set_lastMatch v c) = susp c. Proof. reflexivity. Qed.
-Lemma asyncCaller_set_cbk v c : asyncCaller (set_cbk v c) = asyncCaller c. Proof. reflexivity. Qed.
-Lemma finished_set_cbk v c : finished (set_cbk v c) = finished c. Proof. reflexivity. Qed.
-Lemma ans_set_cbk v c : ans (set_cbk v c) = ans c. Proof. reflexivity. Qed.
-Lemma stg_set_cbk v c : stg (set_cbk v c) = stg c. Proof. reflexivity. Qed.
-Lemma matchLoc_set_cbk v c : matchLoc (set_cbk v c) = matchLoc c. Proof. reflexivity. Qed.
-Lemma asyncLoc_set_cbk v c : asyncLoc (set_cbk v c) = asyncLoc c. Proof. reflexivity. Qed.
-Lemma depth_set_cbk v c : depth (set_cbk v c) = depth c. Proof. reflexivity. Qed.
-Lemma path_set_cbk v c : path (set_cbk v c) = path c. Proof. reflexivity. Qed.
-Lemma banned_set_cbk v c : banned (set_cbk v c) = banned c. Proof. reflexivity. Qed.
-Lemma lastName_set_cbk v c : lastName (set_cbk v c) = lastName c. Proof. reflexivity. Qed.
-Lemma lastMatch_set_cbk v c : lastMatch (set_cbk v c) = lastMatch c. Proof. reflexivity. Qed.
-Lemma cbk_set_cbk v c : cbk (set_cbk v c) = v. Proof. reflexivity. Qed.
-Lemma err_set_cbk v c : err (set_cbk v c) = err c. Proof. reflexivity. Qed.
-Lemma lrem_set_cbk v c : lrem (set_cbk v c) = lrem c. Proof. reflexivity. Qed.
-Lemma pending_set_cbk v c : pending (set_cbk v c) = pending c. Proof. reflexivity. Qed.
-Lemma trace_set_cbk v c : trace (set_cbk v c) = trace c. Proof. reflexivity. Qed.
-Lemma starts_set_cbk v c : starts (set_cbk v c) = starts c. Proof. reflexivity. Qed.
-Lemma susp_set_cbk v c : susp (set_cbk v c) = susp c. Proof. reflexivity. Qed.
-Lemma asyncCaller_set_err v c : asyncCaller (set_err v c) = asyncCaller c. Proof. reflexivity. Qed.
-Lemma finished_set_err v c : finished (set_err v c) = finished c. Proof. reflexivity. Qed.
-Lemma ans_set_err v c : ans (set_err v c) = ans c. Proof. reflexivity. Qed.
-Lemma stg_set_err v c : stg (set_err v c) = stg c. Proof. reflexivity. Qed.
-Lemma matchLoc_set_err v c : matchLoc (set_err v c) = matchLoc c. Proof. reflexivity. Qed.
-Lemma asyncLoc_set_err v c : asyncLoc (set_err v c) = asyncLoc c. Proof. reflexivity. Qed.
-Lemma depth_set_err v c : depth (set_err v c) = depth c. Proof. reflexivity. Qed.
-Lemma path_set_err v c : path (set_err v c) = path c. Proof. reflexivity. Qed.
-Lemma banned_set_err v c : banned (set_err v c) = banned c. Proof. reflexivity. Qed.
-Lemma lastName_set_err v c : lastName (set_err v c) = lastName c. Proof. reflexivity. Qed.
-Lemma lastMatch_set_err v c : lastMatch (set_err v c) = lastMatch c. Proof. reflexivity. Qed.
-Lemma cbk_set_err v c : cbk (set_err v c) = cbk c. Proof. reflexivity. Qed.
-Lemma err_set_err v c : err (set_err v c) = v. Proof. reflexivity. Qed.
-Lemma lrem_set_err v c : lrem (set_err v c) = lrem c. Proof. reflexivity. Qed.
-Lemma pending_set_err v c : pending (set_err v c) = pending c. Proof. reflexivity. Qed.
-Lemma trace_set_err v c : trace (set_err v c) = trace c. Proof. reflexivity. Qed.
-Lemma starts_set_err v c : starts (set_err v c) = starts c. Proof. reflexivity. Qed.
-Lemma susp_set_err v c : susp (set_err v c) = susp c. Proof. reflexivity. Qed.
-Lemma asyncCaller_set_lrem v c : asyncCaller (set_lrem v c) = asyncCaller c. Proof. reflexivity. Qed.
-Lemma finished_set_lrem v c : finished (set_lrem v c) = finished c. Proof. reflexivity. Qed.
-Lemma ans_set_lrem v c : ans (set_lrem v c) = ans c. Proof. reflexivity. Qed.
-Lemma stg_set_lrem v c : stg (set_lrem v c) = stg c. Proof. reflexivity. Qed.
-Lemma matchLoc_set_lrem v c : matchLoc (set_lrem v c) = matchLoc c. Proof. reflexivity. Qed.
-Lemma asyncLoc_set_lrem v c : asyncLoc (set_lrem v c) = asyncLoc c. Proof. reflexivity. Qed.
-Lemma depth_set_lrem v c : depth (set_lrem v c) = depth c. Proof. reflexivity. Qed.
-Lemma path_set_lrem v c : path (set_lrem v c) = path c. Proof. reflexivity. Qed.
-Lemma banned_set_lrem v c : banned (set_lrem v c) = banned c. Proof. reflexivity. Qed.
-Lemma lastName_set_lrem v c : lastName (set_lrem v c) = lastName c. Proof. reflexivity. Qed.
-Lemma lastMatch_set_lrem v c : lastMatch (set_lrem v c) = lastMatch c. Proof. reflexivity. Qed.
-Lemma cbk_set_lrem v c : cbk (set_lrem v c) = cbk c. Proof. reflexivity. Qed.
-Lemma err_set_lrem v c : err (set_lrem v c) = err c. Proof. reflexivity. Qed.
-Lemma lrem_set_lrem v c : lrem (set_lrem v c) = v. Proof. reflexivity. Qed.
-Lemma pending_set_lrem v c : pending (set_lrem v c) = pending c. Proof. reflexivity. Qed.
-Lemma trace_set_lrem v c : trace (set_lrem v c) = trace c. Proof. reflexivity. Qed.
-Lemma starts_set_lrem v c : starts (set_lrem v c) = starts c. Proof. reflexivity. Qed.
-Lemma susp_set_lrem v c : susp (set_lrem v c) = susp c. Proof. reflexivity. Qed.
-Lemma asyncCaller_set_pending v c : asyncCaller (set_pending v c) = asyncCaller c. Proof. reflexivity. Qed.
-Lemma finished_set_pending v c : finished (set_pending v c) = finished c. Proof. reflexivity. Qed.
-Lemma ans_set_pending v c : ans (set_pending v c) = ans c. Proof. reflexivity. Qed.
-Lemma stg_set_pending v c : stg (set_pending v c) = stg c. Proof. reflexivity. Qed.
-Lemma matchLoc_set_pending v c : matchLoc (set_pending v c) = matchLoc c. Proof. reflexivity. Qed.
-Lemma asyncLoc_set_pending v c : asyncLoc (set_pending v c) = asyncLoc c. Proof. reflexivity. Qed.
-Lemma depth_set_pending v c : depth (set_pending v c) = depth c. Proof. reflexivity. Qed.
-Lemma path_set_pending v c : path (set_pending v c) = path c. Proof. reflexivity. Qed.
-Lemma banned_set_pending v c : banned (set_pending v c) = banned c. Proof. reflexivity. Qed.
-Lemma lastName_set_pending v c : lastName (set_pending v c) = lastName c. Proof. reflexivity. Qed.
-Lemma lastMatch_set_pending v c : lastMatch (set_pending v c) = lastMatch c. Proof. reflexivity. Qed.
-Lemma cbk_set_pending v c : cbk (set_pending v c) = cbk c. Proof. reflexivity. Qed.
-Lemma err_set_pending v c : err (set_pending v c) = err c. Proof. reflexivity. Qed.
-Lemma lrem_set_pending v c : lrem (set_pending v c) = lrem c. Proof. reflexivity. Qed.
-Lemma pending_set_pending v c : pending (set_pending v c) = v. Proof. reflexivity. Qed.
-Lemma trace_set_pending v c : trace (set_pending v c) = trace c. Proof. reflexivity. Qed.
-Lemma starts_set_pending v c : starts (set_pending v c) = starts c. Proof. reflexivity. Qed.
-Lemma susp_set_pending v c : susp (set_pending v c) = susp c. Proof. reflexivity. Qed.
-Lemma asyncCaller_set_trace v c : asyncCaller (set_trace v c) = asyncCaller c. Proof. reflexivity. Qed.
-Lemma finished_set_trace v c : finished (set_trace v c) = finished c. Proof. reflexivity. Qed.
-Lemma ans_set_trace v c : ans (set_trace v c) = ans c. Proof. reflexivity. Qed.
-Lemma stg_set_trace v c : stg (set_trace v c) = stg c. Proof. reflexivity. Qed.
-Lemma matchLoc_set_trace v c : matchLoc (set_trace v c) = matchLoc c. Proof. reflexivity. Qed.
-Lemma asyncLoc_set_trace v c : asyncLoc (set_trace v c) = asyncLoc c. Proof. reflexivity. Qed.
-Lemma depth_set_trace v c : depth (set_trace v c) = depth c. Proof. reflexivity. Qed.
-Lemma path_set_trace v c : path (set_trace v c) = path c. Proof. reflexivity. Qed.
-Lemma banned_set_trace v c : banned (set_trace v c) = banned c. Proof. reflexivity. Qed.
-Lemma lastName_set_trace v c : lastName (set_trace v c) = lastName c. Proof. reflexivity. Qed.
-Lemma lastMatch_set_trace v c : lastMatch (set_trace v c) = lastMatch c. Proof. reflexivity. Qed.
-Lemma cbk_set_trace v c : cbk (set_trace v c) = cbk c. Proof. reflexivity. Qed.
-Lemma err_set_trace v c : err (set_trace v c) = err c. Proof. reflexivity. Qed.
-Lemma lrem_set_trace v c : lrem (set_trace v c) = lrem c. Proof. reflexivity. Qed.
-Lemma pending_set_trace v c : pending (set_trace v c) = pending c. Proof. reflexivity. Qed.
-Lemma trace_set_trace v c : trace (set_trace v c) = v. Proof. reflexivity. Qed.
-Lemma starts_set_trace v c : starts (set_trace v c) = starts c. Proof. reflexivity. Qed.
-Lemma susp_set_trace v c : susp (set_trace v c) = susp c. Proof. reflexivity. Qed.
-Lemma asyncCaller_set_starts v c : asyncCaller (set_starts v c) = asyncCaller c. Proof. reflexivity. Qed.
-Lemma finished_set_starts v c : finished (set_starts v c) = finished c. Proof. reflexivity. Qed.
-Lemma ans_set_starts v c : ans (set_starts v c) = ans c. Proof. reflexivity. Qed.
-Lemma stg_set_starts v c : stg (set_starts v c) = stg c. Proof. reflexivity. Qed.
-Lemma matchLoc_set_starts v c : matchLoc (set_starts v c) = matchLoc c. Proof. reflexivity. Qed.
-Lemma asyncLoc_set_starts v c : asyncLoc (set_starts v c) = asyncLoc c. Proof. reflexivity. Qed.
-Lemma depth_set_starts v c : depth (set_starts v c) = depth c. Proof. reflexivity. Qed.
-Lemma path_set_starts v c : path (set_starts v c) = path c. Proof. reflexivity. Qed.
-Lemma banned_set_starts v c : banned (set_starts v c) = banned c. Proof. reflexivity. Qed.
-Lemma lastName_set_starts v c : lastName (set_starts v c) = lastName c. Proof. reflexivity. Qed.
-Lemma lastMatch_set_starts v c : lastMatch (set_starts v c) = lastMatch c. Proof. reflexivity. Qed.
-Lemma cbk_set_starts v c : cbk (set_starts v c) = cbk c. Proof. reflexivity. Qed.
-Lemma err_set_starts v c : err (set_starts v c) = err c. Proof. reflexivity. Qed.
-Lemma lrem_set_starts v c : lrem (set_starts v c) = lrem c. Proof. reflexivity. Qed.
-Lemma pending_set_starts v c : pending (set_starts v c) = pending c. Proof. reflexivity. Qed.
-Lemma trace_set_starts v c : trace (set_starts v c) = trace c. Proof. reflexivity. Qed.
-Lemma starts_set_starts v c : starts (set_starts v c) = v. Proof. reflexivity. Qed.
-Lemma susp_set_starts v c : susp (set_starts v c) = susp c. Proof. reflexivity. Qed.
-Lemma asyncCaller_set_susp v c : asyncCaller (set_susp v c) = asyncCaller c. Proof. reflexivity. Qed.
-Lemma finished_set_susp v c : finished (set_susp v c) = finished c. Proof. reflexivity. Qed.
-Lemma ans_set_susp v c : ans (set_susp v c) = ans c. Proof. reflexivity. Qed.
-Lemma stg_set_susp v c : stg (set_susp v c) = stg c. Proof. reflexivity. Qed.
-Lemma matchLoc_set_susp v c : matchLoc (set_susp v c) = matchLoc c. Proof. reflexivity. Qed.
-Lemma asyncLoc_set_susp v c : asyncLoc (set_susp v c) = asyncLoc c. Proof. reflexivity. Qed.
-Lemma depth_set_susp v c : depth (set_susp v c) = depth c. Proof. reflexivity. Qed.
-Lemma path_set_susp v c : path (set_susp v c) = path c. Proof. reflexivity. Qed.
-Lemma banned_set_susp v c : banned (set_susp v c) = banned c. Proof. reflexivity. Qed.
-Lemma lastName_set_susp v c : lastName (set_susp v c) = lastName c. Proof. reflexivity. Qed.
-Lemma lastMatch_set_susp v c : lastMatch (set_susp v c) = lastMatch c. Proof. reflexivity. Qed.
-Lemma cbk_set_susp v c : cbk (set_susp v c) = cbk c. Proof. reflexivity. Qed.
-Lemma err_set_susp v c : err (set_susp v c) = err c. Proof. reflexivity. Qed.
-Lemma lrem_set_susp v c : lrem (set_susp v c) = lrem c. Proof. reflexivity. Qed.
-Lemma pending_set_susp v c : pending (set_susp v c) = pending c. Proof. reflexivity. Qed.
-Lemma trace_set_susp v c : trace (set_susp v c) = trace c. Proof. reflexivity. Qed.
-Lemma starts_set_susp v c : starts (set_susp v c) = starts c. Proof. reflexivity. Qed.
-Lemma susp_set_susp v c : susp (set_susp v c) = v. Proof. reflexivity. Qed.
-#[export] Hint Rewrite asyncCaller_set_asyncCaller finished_set_asyncCaller ans_set_asyncCaller stg_set_asyncCaller matchLoc_set_asyncCaller asyncLoc_set_asyncCaller depth_set_asyncCaller path_set_asyncCaller banned_set_asyncCaller lastName_set_asyncCaller lastMatch_set_asyncCaller cbk_set_asyncCaller err_set_asyncCaller lrem_set_asyncCaller pending_set_asyncCaller trace_set_asyncCaller starts_set_asyncCaller susp_set_asyncCaller asyncCaller_set_finished finished_set_finished ans_set_finished stg_set_finished matchLoc_set_finished asyncLoc_set_finished depth_set_finished path_set_finished banned_set_finished lastName_set_finished lastMatch_set_finished cbk_set_finished err_set_finished lrem_set_finished pending_set_finished trace_set_finished starts_set_finished susp_set_finished asyncCaller_set_ans finished_set_ans ans_set_ans stg_set_ans matchLoc_set_ans asyncLoc_set_ans depth_set_ans path_set_ans banned_set_ans lastName_set_ans lastMatch_set_ans cbk_set_ans err_set_ans lrem_set_ans pending_set_ans trace_set_ans starts_set_ans susp_set_ans asyncCaller_set_stg finished_set_stg ans_set_stg stg_set_stg matchLoc_set_stg asyncLoc_set_stg depth_set_stg path_set_stg banned_set_stg lastName_set_stg lastMatch_set_stg cbk_set_stg err_set_stg lrem_set_stg pending_set_stg trace_set_stg starts_set_stg susp_set_stg asyncCaller_set_matchLoc finished_set_matchLoc ans_set_matchLoc stg_set_matchLoc matchLoc_set_matchLoc asyncLoc_set_matchLoc depth_set_matchLoc path_set_matchLoc banned_set_matchLoc lastName_set_matchLoc lastMatch_set_matchLoc cbk_set_matchLoc err_set_matchLoc lrem_set_matchLoc pending_set_matchLoc trace_set_matchLoc starts_set_matchLoc susp_set_matchLoc asyncCaller_set_asyncLoc finished_set_asyncLoc ans_set_asyncLoc stg_set_asyncLoc matchLoc_set_asyncLoc asyncLoc_set_asyncLoc depth_set_asyncLoc path_set_asyncLoc banned_set_asyncLoc lastName_set_asyncLoc lastMatch_set_asyncLoc cbk_set_asyncLoc err_set_asyncLoc lrem_set_asyncLoc pending_set_asyncLoc trace_set_asyncLoc starts_set_asyncLoc susp_set_asyncLoc asyncCaller_set_depth finished_set_depth ans_set_depth stg_set_depth matchLoc_set_depth asyncLoc_set_depth depth_set_depth path_set_depth banned_set_depth lastName_set_depth lastMatch_set_depth cbk_set_depth err_set_depth lrem_set_depth pending_set_depth trace_set_depth starts_set_depth susp_set_depth asyncCaller_set_path finished_set_path ans_set_path stg_set_path matchLoc_set_path asyncLoc_set_path depth_set_path path_set_path banned_set_path lastName_set_path lastMatch_set_path cbk_set_path err_set_path lrem_set_path pending_set_path trace_set_path starts_set_path susp_set_path asyncCaller_set_banned finished_set_banned ans_set_banned stg_set_banned matchLoc_set_banned asyncLoc_set_banned depth_set_banned path_set_banned banned_set_banned lastName_set_banned lastMatch_set_banned cbk_set_banned err_set_banned lrem_set_banned pending_set_banned trace_set_banned starts_set_banned susp_set_banned asyncCaller_set_lastName finished_set_lastName ans_set_lastName stg_set_lastName matchLoc_set_lastName asyncLoc_set_lastName depth_set_lastName path_set_lastName banned_set_lastName lastName_set_lastName lastMatch_set_lastName cbk_set_lastName err_set_lastName lrem_set_lastName pending_set_lastName trace_set_lastName starts_set_lastName susp_set_lastName asyncCaller_set_lastMatch finished_set_lastMatch ans_set_lastMatch stg_set_lastMatch matchLoc_set_lastMatch asyncLoc_set_lastMatch depth_set_lastMatch path_set_lastMatch banned_set_lastMatch lastName_set_lastMatch lastMatch_set_lastMatch cbk_set_lastMatch err_set_lastMatch lrem_set_lastMatch pending_set_lastMatch trace_set_lastMatch starts_set_lastMatch susp_set_lastMatch asyncCaller_set_cbk finished_set_cbk ans_set_cbk stg_set_cbk matchLoc_set_cbk asyncLoc_set_cbk depth_set_cbk path_set_cbk banned_set_cbk lastName_set_cbk lastMatch_set_cbk cbk_set_cbk err_set_cbk lrem_set_cbk pending_set_cbk trace_set_cbk starts_set_cbk susp_set_cbk asyncCaller_set_err finished_set_err ans_set_err stg_set_err matchLoc_set_err asyncLoc_set_err depth_set_err path_set_err banned_set_err lastName_set_err lastMatch_set_err cbk_set_err err_set_err lrem_set_err pending_set_err trace_set_err starts_set_err susp_set_err asyncCaller_set_lrem finished_set_lrem ans_set_lrem stg_set_lrem matchLoc_set_lrem asyncLoc_set_lrem depth_set_lrem path_set_lrem banned_set_lrem lastName_set_lrem lastMatch_set_lrem cbk_set_lrem err_set_lrem lrem_set_lrem pending_set_lrem trace_set_lrem starts_set_lrem susp_set_lrem asyncCaller_set_pending finished_set_pending ans_set_pending stg_set_pending matchLoc_set_pending asyncLoc_set_pending depth_set_pending path_set_pending banned_set_pending lastName_set_pending lastMatch_set_pending cbk_set_pending err_set_pending lrem_set_pending pending_set_pending trace_set_pending starts_set_pending susp_set_pending asyncCaller_set_trace finished_set_trace ans_set_trace stg_set_trace matchLoc_set_trace asyncLoc_set_trace depth_set_trace path_set_trace banned_set_trace lastName_set_trace lastMatch_set_trace cbk_set_trace err_set_trace lrem_set_trace pending_set_trace trace_set_trace starts_set_trace susp_set_trace asyncCaller_set_starts finished_set_starts ans_set_starts stg_set_starts matchLoc_set_starts asyncLoc_set_starts depth_set_starts path_set_starts banned_set_starts lastName_set_starts lastMatch_set_starts cbk_set_starts err_set_starts lrem_set_starts pending_set_starts trace_set_starts starts_set_starts susp_set_starts asyncCaller_set_susp finished_set_susp ans_set_susp stg_set_susp matchLoc_set_susp asyncLoc_set_susp depth_set_susp path_set_susp banned_set_susp lastName_set_susp lastMatch_set_susp cbk_set_susp err_set_susp lrem_set_susp pending_set_susp trace_set_susp starts_set_susp susp_set_susp : st.
+Ltac st := cbn [asyncCaller finished ans stg matchLoc asyncLoc depth path banned lastName lastMatch cbk err lrem pending trace starts susp set_asyncCaller set_finished set_ans set_stg set_matchLoc set_asyncLoc set_depth set_path set_banned set_lastName set_lastMatch set_cbk set_err set_lrem set_pending set_trace set_starts set_susp] in *.
+Ltac stg := cbn [asyncCaller finished ans stg matchLoc asyncLoc depth path banned lastName lastMatch cbk err lrem pending trace starts susp set_asyncCaller set_finished set_ans set_stg set_matchLoc set_asyncLoc set_depth set_path set_banned set_lastName set_lastMatch set_cbk set_err set_lrem set_pending set_trace set_starts set_susp].
 
-Ltac st := autorewrite with st in *.
+
 
 (* ---------- small list facts ---------- *)
 Lemma nthN_split {A} (l : list A) p x :
@@ -586,7 +263,7 @@ Proof.
       exists rest. split; [reflexivity|]. split; [assumption|].
       cbn [lval_k negb]. rewrite K5b. reflexivity.
     + (* Fake: the lookup completes inside the starter; goAsync() reports failure *)
-      unfold resume_early in E. st. cbn [stage_eqb negb] in E. st. cbn [stage_eqb] in E.
+      unfold resume_early in E. st. cbn [stage_eqb negb] in E. st. cbn [stage_eqb negb] in E. st.
       rewrite upd_same in E. rewrite LR in E. cbn [tl] in E.
       set (c1 := set_stg SNone _) in E.
       assert (I1 : inv [i] c c1).
@@ -606,7 +283,7 @@ Proof.
       { unfold c1; st. apply upd_same. }
       { unfold c1; st. lia. }
       { lia. }
-      { intros _. unfold c1; st. assumption. }
+      { intros _. unfold c1; st. reflexivity. }
       { exact E. }
       split; [eapply inv_trans; [exact I1| exact I2| apply incl_refl| apply incl_refl]|].
       split; [congruence|].
